@@ -7,7 +7,7 @@ import threading
 import time as real_time
 
 from ..common import Inconclusive, import_sismic
-from ..sched import Abort, BisectShim, CEvent, CLock, Sched, ThreadProxy, TimeShim, YList
+from ..sched import Abort, BisectShim, CEvent, CLock, LineYields, Sched, ThreadProxy, TimeShim, YList
 
 import_sismic()
 import sismic.interpreter.default as DD  # noqa: E402
@@ -32,7 +32,7 @@ ASSUMPTIONS = ['clients other than the one calling start() begin after start() h
                'sleep, execute_once boundaries, hooks, bisect/insert gap, queue list mutators)',
                'liveness is restated as bounded progress: every due event is consumed within pending+3 cycles after the clients stop',
                'the former known findings queue-insert-preempted and stop-then-pause-deadlock are repaired (see known_findings.json); their mechanism classifiers are kept so that a regression is named precisely']
-REQUIRED_COUNTERS = ['schedules_run', 'schedules_completed', 'distinct_interleavings', 'cycles_observed', 'events_consumed',
+REQUIRED_COUNTERS = ['line_level_schedules', 'schedules_run', 'schedules_completed', 'distinct_interleavings', 'cycles_observed', 'events_consumed',
                      'pauses_observed_mid_cycle', 'stops_while_paused', 'runner_ended_by_final', 'stress_runs',
                      'client_preempted_between_bisect_and_insert', 'execute_all_schedules']
 
@@ -55,6 +55,18 @@ def chart():
 
 
 BIG = 1000.0
+LINES = LineYields()
+
+
+def line_functions():
+    fs = []
+    for n in ('start', 'stop', 'pause', 'unpause', 'wait', 'execute', '_run'):
+        if hasattr(AsyncRunner, n):
+            fs.append(getattr(AsyncRunner, n))
+    for n in ('queue', '_queue_event', '_select_event', 'execute_once', '_raise_event'):
+        if hasattr(Interpreter, n):
+            fs.append(getattr(Interpreter, n))
+    return fs
 
 
 def gen_scenario(rnd):
@@ -431,6 +443,12 @@ def run_case(acc, rnd, tier, case):
     scn = gen_scenario(rnd)
     strategy = rnd.choice(('random', 'random', 'sticky', 'pct'))
     S = Sched(rnd, strategy)
+    # in about 40 % of the schedules every source line of the runner's methods and of the interpreter's queue functions
+    # is a scheduling point as well (sys.monitoring LINE events; no source change)
+    if rnd.random() < 0.4 and LINES.install(line_functions()):
+        S.line_mode = True
+        LINES.current = S
+        acc.count('line_level_schedules')
     H = []
     old_time, old_bisect = RR.time, getattr(DD, 'bisect', None)
     RR.time = TimeShim(S)
@@ -453,8 +471,9 @@ def run_case(acc, rnd, tier, case):
             return run
         for i, n in enumerate(names):
             S.spawn(n, mk(i, n))
-        verdict = S.run(max_switches=6000)
+        verdict = S.run(max_switches=30000 if S.line_mode else 6000)
     finally:
+        LINES.current = None
         RR.time = old_time
         if old_bisect is not None:
             DD.bisect = old_bisect
